@@ -7,11 +7,12 @@ RULE = ("random well-formed models (river chains and confluences with junctions,
         "chains reservoir - FWTW - distribution - demand - sewer(s) - WWTW - river with overflow and leakage to groundwater; "
         "land with impervious / pervious surfaces, groundwater or queue groundwater, sewers) under four pollutant "
         "configurations, shuffled insertion order, forcing with zeros, dry spells and bursts, run in exact arithmetic with the "
-        "observer hooks; at every timestep every node's declared inflow minus outflow equals the directly measured change of what it stores (plus decay inside the window). non-trivial = distinct model with >= 4 nodes")
+        "observer hooks; at every timestep every node's declared inflow minus outflow equals the directly measured change of what it stores (plus decay inside the window). non-trivial = distinct model with >= 4 nodes."
+        " correspondence (family net): random networks of the real Node, Waste, Storage, Reservoir, Groundwater, River and Catchment classes over plain arcs (3-8 nodes, chains, confluences, stores in cycles, limited capacities, preferences) driven by distribute / route / make_abstractions calls and direct pushes, pulls and checks over arcs: every store and every arc record after every operation equals the model's exactly, and the wiring hypothesis of the network theorems (net_wfb) is evaluated on every network built.")
 
 if __name__ == "__main__":
     sys.exit(net_check.run("C01", RULE,
                            ["exact-rational semantics stands for float semantics up to rounding",
                             "remainders below FLOAT_ACCURACY that the code drops by design count as dust (tolerance 1e-9 on exact values)",
                             "treatment parameters are well-formed (constant x temperature factor + liquor multiplier <= 1)"],
-                           n_quick=160, ndates=5))
+                           n_quick=160, ndates=5, corr=[("net", 250, 2500, 8)]))
